@@ -73,7 +73,7 @@ def motionBlurPeak (peak : α) (fd T : α) : α := peak * (sinc (fd * T) * sinc 
 def aliasShifts (n : Nat) : List Int := (List.range (2 * n + 1)).map fun (k : Nat) => (k : Int) - (n : Int)
 
 /-- `alias_spectrum(psd, fs, n)(f) = sum(psd(f + i·fs) for i in range(-n, n+1))` (Python `sum`: left fold from 0). -/
-def alias (psd : α → α) (fs : α) (n : Nat) (f : α) : α :=
+def aliasSpectrum (psd : α → α) (fs : α) (n : Nat) (f : α) : α :=
   (aliasShifts n).foldl (fun acc i => acc + psd (f + ofInt i * fs)) 0.0
 
 /-! ### hydrodynamics.py (complex numbers as pairs) -/
@@ -347,7 +347,7 @@ def handle : List String → Option String
     let fc ← float? fc; let D ← float? D; let fd ← float? fd; let a ← float? a
     let n ← nat? n
     if n > 100000 then none
-    else some (showFloat (alias (fun f => lorentzian f fc D * gDiode f fd a) (← float? fs) n (← float? f)))
+    else some (showFloat (aliasSpectrum (fun f => lorentzian f fc D * gDiode f fd a) (← float? fs) n (← float? f)))
   | ["c20.drivenlor", fc, fd, A] => do
     some (showFloat (drivenLorentzian (← float? fc) (← float? fd) (← float? A)))
   | ["c20.drag", f, g0, rho, R, l] => do
@@ -410,7 +410,7 @@ def handle : List String → Option String
       if n > 100000 then none else
       match Passive.init c with
       | .error e => some (showErr e)
-      | .ok m => some (showFloat (alias (fun f => m.call f fc D fd a) fs n f))
+      | .ok m => some (showFloat (aliasSpectrum (fun f => m.call f fc D fd a) fs n f))
     | _ => none
   | _ => none
 
